@@ -104,6 +104,13 @@ func (verify *VerifyServerController) handlePairVerifyStart(in util.Container) (
 	copy(otherPublicKey[:], clientPublicKey)
 
 	verify.session.GenerateSharedKeyWithOtherPublicKey(otherPublicKey)
+	if verify.session.SharedKey == [32]byte{} {
+		// The public key is a point of small order: the shared secret does not depend on the key pair
+		// of this exchange, every session of such a controller would have the same keys.
+		verify.reset()
+		return nil, errInvalidClientKey
+	}
+
 	verify.session.SetupEncryptionKey([]byte("Pair-Verify-Encrypt-Salt"), []byte("Pair-Verify-Encrypt-Info"))
 
 	device := verify.context.GetSecuredDevice()
